@@ -71,11 +71,20 @@ func serverMessage(kind int, n *netEnv) (body []byte, name string) {
 		return nle32(0x997275b5), "bare-boolTrue"
 	case 15:
 		return append(nle32(0x1cb5c415), nle32(0)...), "bare-vector"
+	case 16:
+		b := rpcResult(i64(), mustMarshal(&objects.Pong{MsgID: 1, PingID: 2}))
+		return b[:len(b)-verifrt.Len(len(b)-1)-1], "truncated-rpc_result"
+	case 17:
+		b := mustMarshal(&objects.BadServerSalt{BadMsgID: i64(), BadMsgSeqNo: i32(), ErrorCode: i32(), NewSalt: i64()})
+		return b[:len(b)-verifrt.Len(len(b)-1)-1], "truncated-bad_server_salt"
+	case 18:
+		b := container([]int64{nextSrvID()}, []int32{2}, [][]byte{mustMarshal(&objects.Pong{MsgID: 1, PingID: 2})})
+		return b[:len(b)-verifrt.Len(len(b)-1)-1], "truncated-container"
 	}
 	return nil, ""
 }
 
-const nServerMessages = 16
+const nServerMessages = 19
 
 // H_C16_message: one arbitrary server message of the given kind (odd or even seq_no) reaches a client that is
 // idle; the process survives, the receive loop keeps running and a request issued afterwards completes.
